@@ -32,6 +32,10 @@ PlainU(st, ok) == IF st = "unspec" THEN Res(TRUE, FALSE, TRUE, <<>>, <<>>, <<>>,
                   ELSE IF st = "miss" THEN Res(TRUE, TRUE, FALSE, <<>>, <<>>, <<>>, <<>>) ELSE Plain(ok)
 
 Rid(e) == IF "rid" \in DOMAIN e.a THEN e.a.rid ELSE <<>>
+\* deciding "whole rows, each once" without a numbering column is quadratic: a large frame without one
+\* is a harness error (no verdict), not hours of computation
+TooBig(f, rid) == ~f.err /\ f.n > 300 /\ ~RidUsable(f, rid)
+TooBigRes(e) == Res(TRUE, TRUE, FALSE, <<ErrFrame>>, <<e.dig>>, <<>>, <<>>)
 
 \* Aggregate: the order of the result rows is the grouper's group order or any other
 BagEqRows(exp, o) ==
@@ -54,15 +58,17 @@ JudgeOp(e, Fr, Gr) ==
     [] e.op = "Slice"  -> Det(e, SliceSem(R, e.a.a, e.a.b))
     [] e.op = "Copy"   -> Det(e, CopySem(R, e.a.dst, e.a.src))
     [] e.op = "Filter" -> Det(e, FilterSem(R, e.a.clause))
-    [] e.op = "Sort"   -> Rel(e, R, SortPost(R, e.a.orders, e.obs, Rid(e)))
-    [] e.op = "Distinct" -> Rel(e, R, DistinctPost(R, e.a.cols, e.a.null = 1, e.obs, Rid(e)))
+    [] e.op = "Sort"   -> IF TooBig(R, Rid(e)) THEN TooBigRes(e) ELSE Rel(e, R, SortPost(R, e.a.orders, e.obs, Rid(e)))
+    [] e.op = "Distinct" -> IF TooBig(R, Rid(e)) THEN TooBigRes(e)
+                            ELSE Rel(e, R, DistinctPost(R, e.a.cols, e.a.null = 1, e.obs, Rid(e)))
     [] e.op = "Apply"  -> Det(e, ApplySem(R, e.a.instrs, e.a.tbls))
     [] e.op = "FilteredApply" -> Det(e, FilteredApplySem(R, e.a.clause, e.a.instrs, e.a.tbls))
     [] e.op = "WithRowNums" -> Det(e, WithRowNumsSem(R, e.a.dst))
     [] e.op = "Eval"   -> Det(e, EvalSem(R, e.a.dst, e.a.expr, e.a.ctx, e.a.tbls))
     [] e.op = "Rebuild" -> Det(e, RebuildSem(R))
     [] e.op = "GroupBy" ->
-         IF GroupPost(R, e.a.cols, e.a.null = 1, e.gerr, e.groups, Rid(e))
+         IF TooBig(R, Rid(e)) THEN [TooBigRes(e) EXCEPT !.newf = <<>>, !.newd = <<>>, !.newg = <<ErrGrouper>>, !.newgd = <<e.gdig>>]
+         ELSE IF GroupPost(R, e.a.cols, e.a.null = 1, e.gerr, e.groups, Rid(e))
          THEN Res(TRUE, FALSE, FALSE, <<>>, <<>>,
                   <<IF e.gerr = 1 THEN ErrGrouper ELSE MkGrouper(R, e.a.cols, e.groups, Rid(e))>>, <<e.gdig>>)
          ELSE Res(FALSE, FALSE, FALSE, <<>>, <<>>, <<ErrGrouper>>, <<e.gdig>>)
